@@ -25,7 +25,7 @@ import (
 //	10 R8  S:[REQ s {}, CLOSE z, COUNT c]        P:[EVENT e1]   (CLOSE of an id that is not open)
 //	11 R9  S:[REQ a {kinds:[1]}, REQ b {kinds:[7]}, CLOSE a, CLOSE a, COUNT c]  P:[EVENT e1(k1), EVENT e2(k7)]
 //	12 R10 S:[REQ s {}], S's reader stops after k reads; P1:[EVENT a], P2:[EVENT b] concurrently; then S drains
-const C07Scenarios = 15
+const C07Scenarios = 16
 
 type pubEvent struct {
 	ev       *mocrelay.Event
@@ -65,7 +65,7 @@ func RouterScenario(h *vsched.H) {
 	}
 	var subscribers, publishers []*Conn
 	stalled := false
-	var later func() // second phase: runs after the first one is quiescent (a client that sends when everything before has been answered)
+	var phases []func() // later phases: each runs after the one before is quiescent (a client that sends when everything before has been answered)
 	switch sc {
 	case 0, 1, 2, 3, 6, 7, 8, 9, 10, 11, 13, 14:
 		S, P := newConn("S"), newConn("P")
@@ -119,12 +119,12 @@ func RouterScenario(h *vsched.H) {
 			// the event published afterwards must reach the re-opened subscription
 			go S.Write(ReqMsg("s1", all...), CloseMsg("s1"), ReqMsg("s2", all...))
 			go P.Write(EventMsg(e1))
-			later = func() { go P.Write(EventMsg(e2)) }
+			phases = append(phases, func() { go P.Write(EventMsg(e2)) })
 		case 14:
 			// the very first REQ of a connection racing with a publication; then a later publication
 			go S.Write(ReqMsg("s", all...))
 			go P.Write(EventMsg(e1))
-			later = func() { go P.Write(EventMsg(e2)) }
+			phases = append(phases, func() { go P.Write(EventMsg(e2)) })
 		case 9:
 			x := Ev('c', '2', 1, 30)
 			go S.Write(ReqMsg("s", all...), EventMsg(x))
@@ -137,6 +137,19 @@ func RouterScenario(h *vsched.H) {
 		go S1.Write(ReqMsg("s", k1...))
 		go S2.Write(ReqMsg("s", k7...))
 		go P.Write(EventMsg(e1), EventMsg(e2))
+	case 15:
+		// one stalled and one healthy subscriber with the same filter; the publisher sends one event per
+		// phase (the healthy subscriber has drained everything before the next one is sent): the stalled
+		// one may lose what exceeds its buffer, the healthy one must get every event
+		S1, S2, P := newConn("S1"), newConn("S2"), newConn("P")
+		subscribers, publishers = []*Conn{S1, S2}, []*Conn{P}
+		go S1.Write(ReqMsg("s", all...))
+		go S2.Write(ReqMsg("s", all...))
+		for i := 0; i < buflen+3; i++ {
+			ev := Ev(byte('a'+i), '1', 1, int64(10+i))
+			phases = append(phases, func() { go P.Write(EventMsg(ev)) })
+		}
+		stalled = true
 	case 12:
 		S, P1, P2 := newConn("S"), newConn("P1"), newConn("P2")
 		subscribers, publishers = []*Conn{S}, []*Conn{P1, P2}
@@ -159,8 +172,8 @@ func RouterScenario(h *vsched.H) {
 		}
 	}
 	h.WaitQuiescent()
-	if later != nil {
-		later()
+	for _, ph := range phases {
+		ph()
 		h.WaitQuiescent()
 	}
 	if stalled {
